@@ -118,6 +118,7 @@ class C07(Check):
         return jobs
 
 
+BIG = 3000000000
 RM_ADDS = [['a', 1], ['a', -1], ['a', -2], ['b', 1], ['b', -1], ['n', 1], ['n', -3], ['a', 0]]
 RM_REQUESTS = [{'a': 1}, {'a': 2}, {'a': 1, 'b': 1}, {'b': 1, 'a': 2}, {'a': 0}, {}, {'a': 1, 'b': -1}, {'b': -1, 'a': 1},
                {'a': -1}, {'zz': 1}, {'a': 1, 'zz': 0}, {'a': 1, 'zz': 1}, {'zz': 0, 'b': 1}]
@@ -144,7 +145,12 @@ class C09(Check):
     def jobs(self, tier):
         D = 6 if tier == 'quick' else 8
         params = {'depth': D, 'adds': RM_ADDS, 'requests': RM_REQUESTS, 'releases': RM_RELEASES}
-        return split_first('rm', f'RM-C09[D{D}]', params, e2=10, max_states=3000000, max_seconds=3000)
+        jobs = split_first('rm', f'RM-C09[D{D}]', params, e2=10, max_states=3000000, max_seconds=3000)
+        # large whole amounts: a shortage of one unit in three thousand million is still a shortage
+        big = {'depth': D - 1, 'adds': [['a', 1], ['a', -1]], 'requests': [{'a': 1}, {'a': BIG}, {'a': BIG - 1}],
+               'releases': [None, {'a': 1}, {'a': BIG}], 'pools': [['a', BIG]], 'resys': False}
+        jobs += split_first('rm', f'RM-C09big[D{D - 1}]', big, e2=5, max_states=3000000, max_seconds=3000)
+        return jobs
 
 
 @check
@@ -178,6 +184,11 @@ class C10(Check):
         p3 = {'depth': D, 'adds': [['a', 1], ['a', -1]], 'requests': [{'a': 1}, {'a': 1, 'zz': 0}, {'a': 0, 'b': 1}],
               'pools': [['a', 1], ['b', 1]], 'kinds': ['noop', 'take', 'shared']}
         jobs += split_first('rmwait', f'RMWAIT-C10zero[D{D}]', p3, e2=50, max_states=3000000, max_seconds=3000)
+        # a resource that is defined for the first time while a request for it is already waiting; amounts of the order of
+        # 1e9 (shortage of one unit in three thousand million)
+        p4 = {'depth': D, 'adds': [['n', 1], ['n', -1], ['a', 1]], 'requests': [{'n': 1}, {'a': BIG}, {'a': 1, 'n': 1}],
+              'pools': [['a', BIG]], 'kinds': ['noop', 'take']}
+        jobs += split_first('rmwait', f'RMWAIT-C10new[D{D}]', p4, e2=50, max_states=3000000, max_seconds=3000)
         return jobs
 
 
